@@ -25,6 +25,7 @@ RULE = ("Zone ids: Hypothesis samples from all ids known to both tz libraries (q
         "the offset the provider's tz library assigns to that wall time in the reading of RFC 5545 3.3.5 (first occurrence of a repeated time, offset before a gap: fold 0); dateutil sources: wall time only. "
         "DTSTAMP/CREATED/LAST-MODIFIED/ACKNOWLEDGED (add and descriptors) are written as astimezone(UTC) with Z. Non-trivial: zone "
         "!= UTC and wall time within a day of a transition, or list/period shape; distinct by hash.")
+RULE += ' Rounds 7-8: datetime-subclass values; attribute setters and replacement on a property that held the same instant in another zone; expected offsets in the RFC 5545 3.3.5 reading for both providers.'
 ASSUMPTIONS = ["tzdata as installed is the ground truth for offsets", "zone ids known to both zoneinfo and pytz (so that every source x provider pair is meaningful)"]
 REQUIRED_CLASSES = ["history:same-instant-in-another-zone", "near-transition", "in-gap-or-fold", "shape:single", "shape:list", "shape:rdate-period", "shape:freebusy", "shape:utc-prop", "src:zoneinfo",
                     "src:pytz", "src:dateutil", "zone:utc"]
